@@ -13,7 +13,7 @@ Extraction "model.ml"
   obj_inputs obj_tv obj_eval_default obj_eval_checked obj_equiv obj_implied_by
   obj_essential obj_degree obj_essential_degree obj_domain obj_image obj_relation
   obj_support obj_weight obj_sat_point b_node_count
-  is_nnf is_cnf is_dnf literals sem nnf to_cnf to_dnf
+  is_nnf is_cnf is_dnf literals sem nnf to_cnf to_dnf power_set
   tokenize from_str_full parse_tokens display
   from_csv_string from_csv_file to_csv_formatted to_csv csv_safe table_rows to_string_formatted display_table uwidth clean_rowsb
   bf_tv spec_essential spec_support spec_equiv spec_implies env_of
